@@ -348,7 +348,9 @@ class Parser:
             if tok:
                 pos = tok.pos
             if code == '*':
-                if tok and tok.txt == '*':
+                if (tok and tok.txt == '*'
+                        and type(tok) is not defs.VerbatimToken):
+                    # NB: verbatim text is never markup
                     arg_extr = arg = [tok]
                     buf.next()
             elif code == 'O':
